@@ -139,6 +139,24 @@ class CollV:
         return f"{{x in {self.base} | " + " and ".join(ast.unparse(b) for _p, b in self.preds) + "}"
 
 
+class DictV:
+    """A dict literal with decidable keys.  An entry whose value was written as the bare name of a local container keeps
+    that *name* (`ref`): mutating `d[k]` mutates the local, as in Python where both denote the same object."""
+    __slots__ = ("entries",)
+
+    def __init__(self, entries):
+        self.entries = list(entries)   # (key value, value, ref name or None)
+
+    def __eq__(self, o):
+        return self is o
+
+    def __hash__(self):
+        return id(self)
+
+    def __repr__(self):
+        return "{" + ", ".join(f"{k!r}: {('&' + r) if r else repr(v)}" for k, v, r in self.entries) + "}"
+
+
 class FuncV:
     """A function value the interpreter does not call: a lambda or a nested def (its AST node is kept)."""
     __slots__ = ("node",)
@@ -504,7 +522,7 @@ class Interp:
     def _hoist_calls(self, s, st, fr):
         outs = [(st, None)]
         for call in self._calls_in(s):
-            callees, resolved = fr.ft.resolve_call(call)
+            callees, resolved = self._resolve(call, outs[0][0], fr)
             if not callees:
                 continue
             if len(callees) != 1 or not resolved:
@@ -528,6 +546,24 @@ class Interp:
             if len(outs) > self.max_paths:
                 raise AnalysisError(f"path explosion inlining {callee.qualname}")
         return outs
+
+    def _resolve(self, call, st, fr):
+        """Static call resolution, refined by the abstract receiver: when the static type of the receiver is unknown or a
+        union (a loop over `(self.organization, self.workflow, self.product)`), the class of the receiver *value* picks
+        the method."""
+        callees, resolved = fr.ft.resolve_call(call)
+        f = call.func
+        if (len(callees) != 1 or not resolved) and isinstance(f, ast.Attribute) and not any(isinstance(n, ast.Call) for n in ast.walk(f.value)):
+            self._quiet += 1
+            try:
+                rv = self.eval(f.value, st, fr)
+            finally:
+                self._quiet -= 1
+            if isinstance(rv, Obj) and rv.cls:
+                m = self.repo.lookup_method(rv.cls, f.attr)
+                if m is not None:
+                    return [m], True
+        return callees, resolved
 
     def inline_call(self, call, callee, st, fr):
         """-> list of (state, return value, exit) ; exit is None or ('raise', node)."""
@@ -565,8 +601,20 @@ class Interp:
             env["__kwargs__"] = ListV([Const(k) for k in args.get("__extra_kw__", [])])
         st.env = env
         res = []
+        # local containers handed to the callee are shared objects: what the callee does to its parameter (add / append /
+        # remove, or a loop that makes it unknown) is visible through the caller's name, unless the callee rebinds the name
+        shared = {}
+        env0 = dict(env)
+        cparams = [p for p in callee.params if not (p == "self" and callee.cls and not unbound)]
+        for p, a in list(zip(cparams, call.args)) + [(kw.arg, kw.value) for kw in call.keywords if kw.arg]:
+            if isinstance(a, ast.Name) and a.id in saved_env and isinstance(saved_env[a.id], (ListV, CollV)) and p in env:
+                rebound = any((isinstance(n, ast.Name) and n.id == p and isinstance(n.ctx, ast.Store)) for n in ast.walk(callee.node))
+                if not rebound:
+                    shared[p] = a.id
         for st1, ex in self.exec_block(callee.body(), st, nfr):
+            back = {a: st1.env[p] for p, a in shared.items() if p in st1.env and st1.env[p] is not env0.get(p)}
             st1.env = dict(saved_env)
+            st1.env.update(back)
             if ex is None:
                 res.append((st1, NONE if callee.name != "__init__" else recv, None))
             elif ex[0] == "return":
@@ -1175,7 +1223,30 @@ class Interp:
         else:
             raise AnalysisError(f"unsupported assignment target at {fr.func.loc(stmt)}")
 
+    def _dict_entry(self, d, key):
+        """-> the entry of a DictV selected by `key`; False when no key can match; None when undecided."""
+        rs = [self._equal(key, k) for k, _v, _r in d.entries]
+        for r, ent in zip(rs, d.entries):
+            if r is True:
+                return ent
+        if all(r is False for r in rs):
+            return False
+        return None
+
     def _mut_event(self, recv_expr, op, args, node, st, fr, argnodes=None):
+        if isinstance(recv_expr, ast.Subscript) and not isinstance(recv_expr.slice, ast.Slice):
+            d = self.eval(recv_expr.value, st, fr)
+            if isinstance(d, DictV):
+                ent = self._dict_entry(d, self.eval(recv_expr.slice, st, fr))
+                if ent not in (None, False) and ent[2]:
+                    return self._mut_event(ast.copy_location(ast.Name(id=ent[2], ctx=ast.Load()), recv_expr), op, args, node, st, fr, argnodes)
+                if ent is None:
+                    # undecided key: any of the referenced locals may have been mutated
+                    for _k, _v, ref in d.entries:
+                        if ref and ref in st.env:
+                            st.env[ref] = Unk(f"{ref}~{next(self._fresh)}", fr.ft.lookup(ref, fr.func.node))
+                return True
+            return False
         if isinstance(recv_expr, ast.Attribute):
             base = self.eval(recv_expr.value, st, fr)
             cls = base.cls if isinstance(base, Obj) else None
@@ -1270,10 +1341,27 @@ class Interp:
             b = self.eval(e.right, st, fr, effects)
             return self.binop(e.op, a, b, e)
         if isinstance(e, ast.BoolOp):
-            t = self.truth(e, st, fr)
-            if t is not None:
-                return Const(t)
-            return Unk(ast.unparse(e), ("prim", "bool"))
+            # `a or b` / `a and b` yield one of the operands (Python semantics), decided left to right
+            is_or = isinstance(e.op, ast.Or)
+            last = None
+            for x in e.values:
+                if isinstance(x, (ast.Compare, ast.BoolOp)) or (isinstance(x, ast.UnaryOp) and isinstance(x.op, ast.Not)):
+                    t = self.truth(x, st, fr)
+                    v = Const(t) if t is not None else None
+                else:
+                    v = self.eval(x, st, fr, effects)
+                    t = self._truth_of_value(v)
+                    if t is None:
+                        t = self.truth(x, st, fr)
+                if t is None:
+                    t_all = self.truth(e, st, fr)
+                    if t_all is not None:
+                        return Const(t_all)
+                    return Unk(ast.unparse(e), ("prim", "bool"))
+                if t == is_or:
+                    return v
+                last = v
+            return last
         if isinstance(e, ast.Compare):
             t = self.truth(e, st, fr)
             if t is not None:
@@ -1300,9 +1388,26 @@ class Interp:
         if isinstance(e, ast.Set):
             return ListV([self.eval(x, st, fr, effects) for x in e.elts], True, "set")
         if isinstance(e, ast.Dict):
+            if e.keys and all(k is not None for k in e.keys):
+                ents = []
+                for k, v in zip(e.keys, e.values):
+                    kv = self.eval(k, st, fr)
+                    if not (isinstance(kv, Const) or (isinstance(kv, EnumSet) and kv.single() is not None) or (isinstance(kv, Poly) and kv.is_const())):
+                        ents = None
+                        break
+                    vv = self.eval(v, st, fr, effects)
+                    ref = v.id if isinstance(v, ast.Name) and isinstance(vv, ListV) else None
+                    ents.append((kv, vv, ref))
+                if ents is not None:
+                    return DictV(ents)
             return Unk("dict~%d" % next(self._fresh), ("dict", None, None))
         if isinstance(e, ast.Subscript):
             base = self.eval(e.value, st, fr, effects)
+            if isinstance(base, DictV) and not isinstance(e.slice, ast.Slice):
+                ent = self._dict_entry(base, self.eval(e.slice, st, fr))
+                if ent not in (None, False):
+                    return st.env.get(ent[2], ent[1]) if ent[2] else ent[1]
+                return Unk(f"{ast.unparse(e)[:40]}~{next(self._fresh)}", fr.ft.type_of(e))
             if isinstance(base, ListV) and not isinstance(e.slice, ast.Slice):
                 idx = self.eval(e.slice, st, fr)
                 if isinstance(idx, Poly) and idx.is_const():
@@ -1447,6 +1552,20 @@ class Interp:
                 return hv
         f = e.func
         # in-place mutators on attributes / locals
+        if isinstance(f, ast.Attribute) and f.attr in MUTATORS and isinstance(f.value, ast.Subscript) and not isinstance(f.value.slice, ast.Slice) \
+                and isinstance(self.eval(f.value.value, st, fr), DictV):
+            args = [self.eval(a, st, fr, effects) for a in e.args]
+            if effects:
+                self._mut_event(f.value, f.attr, args, e, st, fr, list(e.args))
+            return Unk(f"{ast.unparse(f)[:40]}()")
+        if isinstance(f, ast.Attribute) and f.attr == "get" and e.args and not e.keywords:
+            dv = self.eval(f.value, st, fr)
+            if isinstance(dv, DictV):
+                ent = self._dict_entry(dv, self.eval(e.args[0], st, fr))
+                if ent is False:
+                    return self.eval(e.args[1], st, fr) if len(e.args) > 1 else NONE
+                if ent is not None:
+                    return st.env.get(ent[2], ent[1]) if ent[2] else ent[1]
         if isinstance(f, ast.Attribute) and f.attr in MUTATORS and isinstance(f.value, (ast.Attribute, ast.Name)):
             base_t = fr.ft.type_of(f.value)
             is_model_call = base_t is not None and base_t[0] == "obj"
@@ -1588,6 +1707,18 @@ class Interp:
             if isinstance(v, EnumSet) and v.single() is not None:
                 return v
             return Unk(f"{fname}({self.path_of(v, ast.unparse(e.args[0]))})", ("prim", "float"))
+        if fname in ("getattr", "setattr") and len(e.args) >= 2:
+            nm = self.eval(e.args[1], st, fr)
+            if isinstance(nm, Const) and isinstance(nm.v, str) and nm.v.isidentifier():
+                # attribute access by a known name: same as the dotted form
+                tgt = ast.Attribute(value=e.args[0], attr=nm.v, ctx=ast.Store() if fname == "setattr" else ast.Load())
+                ast.copy_location(tgt, e)
+                if fname == "getattr":
+                    return self.eval(tgt, st, fr, effects)
+                if len(e.args) == 3:
+                    v = self.eval(e.args[2], st, fr, effects)
+                    self.assign(tgt, v, st, fr, e)
+                    return NONE
         if fname == "isinstance" and len(e.args) == 2:
             v = self.eval(e.args[0], st, fr)
             if isinstance(v, Obj) and v.cls and isinstance(e.args[1], ast.Name) and e.args[1].id in self.repo.classes:
@@ -1598,7 +1729,7 @@ class Interp:
                     return FALSE
             return Unk(ast.unparse(e), ("prim", "bool"))
         # generic call: evaluate args for effects, emit event
-        callees, resolved = fr.ft.resolve_call(e)
+        callees, resolved = self._resolve(e, st, fr)
         argvals = {}
         for i, a in enumerate(e.args):
             argvals[i] = self.eval(a, st, fr, effects)
@@ -1695,6 +1826,8 @@ class Interp:
         if isinstance(v, Obj) and not v.maybe_none:
             return True
         if isinstance(v, EnumSet) and v.single() is not None:
+            if "IntEnum" not in self.repo.classes[v.cls].bases:
+                return True   # members of a plain Enum are always truthy
             return self.repo.enums[v.cls].get(v.single()) != 0
         return None
 
@@ -1956,6 +2089,8 @@ class Interp:
 
     def _contains(self, a, b, bnode, st, fr):
         items = None
+        if isinstance(b, DictV):
+            b = ListV([k for k, _v, _r in b.entries], True, "tuple")
         if isinstance(b, ListV):
             items = b.items
         if items is not None:
